@@ -147,6 +147,38 @@ func c01(c *ev.Ctx) {
 		}
 	})
 
+	// constant integer arithmetic: the path the peephole optimizer folds (and
+	// must fold to exactly the value the unoptimised machine computes)
+	nc := c.Pick(4000, 150000)
+	c.ParFor(nc, func(i int) {
+		id := fmt.Sprintf("const/%d", i)
+		if !c.Want(id) {
+			return
+		}
+		r := c.Rng("const", i)
+		lits := []int64{0, 1, 2, 3, 4, 5, 7, 9, 10, 16, 100, 255, 256, 300, 1000, 32767, 32768, 65533, 65534, 65535, 65536}
+		var mk func(d int) gast.Expr
+		mk = func(d int) gast.Expr {
+			if d <= 0 || r.Intn(4) == 0 {
+				return gast.IntLit{V: lits[r.Intn(len(lits))]}
+			}
+			e := gast.Infix{Op: []string{"+", "-", "*", "/", "-", "+", "==", "!="}[r.Intn(8)], L: mk(d - 1), R: mk(d - 1)}
+			if e.Op == "==" || e.Op == "!=" {
+				// comparisons of constants are folded too; keep them at the top so the result stays typed
+				if d < 3 {
+					e.Op = "-"
+				}
+			}
+			return e
+		}
+		e := mk(1 + r.Intn(3))
+		for _, noOpt := range []bool{false, true} {
+			c.Case(exprScript(e, gast.Minimal)+fmt.Sprint(noOpt), true)
+			runExprCase(c, id, "constant integer arithmetic", e, nil, nil, noOpt)
+		}
+		c.SampleEvery(i, func() interface{} { return map[string]string{"script": exprScript(e, gast.Minimal), "kind": "constant arithmetic"} })
+	})
+
 	// random nestings
 	n := c.Pick(6000, 300000)
 	depthMax := c.Pick(3, 5)
